@@ -192,10 +192,13 @@ func RunC08(env *Env, job *C08Job) *C08Res {
 				for p := int64(0); p < int64(len(T)); p++ {
 					if job.Policy == "quick" {
 						if inHeader(p) {
-							if T[p] == 0 && p%3 != 0 { // header padding: every third zero byte
+							if T[p] == 0 && p%5 != 0 { // header padding: every fifth zero byte
 								continue
 							}
-						} else if p%7 != 0 {
+							if T[p] != 0 && p%2 != 0 { // every second non-zero header byte
+								continue
+							}
+						} else if p%16 != 0 {
 							continue
 						}
 					}
